@@ -20,6 +20,28 @@ def main():
   planted = lambda l: 3 in l and 7 in l  # noqa: E731
   assert shrink.ddmin(list(range(20)), planted) == [3, 7]
   assert shrink.ddmin_bytes(b"hello world!", lambda d: b"o" in d and b"!" in d) in (b"o!",)
+  # simfs: files under /simfs/ live in memory, are created at open("w") and committed at close
+  from sim.simfs import SimFS
+  import pathlib
+  fs = SimFS().install()
+  try:
+    f = open("/simfs/a/b.txt", "w", encoding="utf-8")
+    assert fs.get("/simfs/a/b.txt") == b"", "the file must exist (empty) as soon as it is opened for writing"
+    f.write("héllo\n")
+    f.close()
+    assert fs.get("/simfs/a/b.txt") == "héllo\n".encode("utf-8")
+    assert pathlib.Path("/simfs/a/b.txt").read_text(encoding="utf-8") == "héllo\n"
+    assert open("/simfs/a/b.txt", "rb").read() == "héllo\n".encode("utf-8")
+    try:
+      open("/simfs/missing", "r")
+      raise AssertionError("missing file opened")
+    except FileNotFoundError:
+      pass
+    assert not os.path.exists("/simfs/a/b.txt"), "nothing may reach the real file system"
+    with open(__file__, "rb") as real:
+      assert real.read(2) == b"#!"
+  finally:
+    fs.uninstall()
   print("selftest ok")
 
 
